@@ -145,6 +145,32 @@ theorem C10_first_memo_transparent (g : Grammar T N) (fi : N → TE T) (memo : F
     (firstCall g fi memo α).1 = .ok (firstStr fi α) ∧ MemoGood fi (firstCall g fi memo α).2 :=
   firstCall_good g fi memo α hm hα
 
+/-- **No history of calls changes an answer.**  One FIRST closure (one memo table, empty when `ComputeFIRST` returns it)
+is called with ANY sequence of strings `qs` — declared symbols or not, so calls that panic and leave a partial value in
+the table are included: there is one answer per call, and every call whose string consists of declared symbols is
+answered with `firstStr fi α`, the value `C10_first_exact` is about, whatever was asked before it.  (The memo table is
+keyed by the string of symbols itself; two different strings never share an entry.) -/
+theorem C10_first_memo_any_history (g : Grammar T N) (fi : N → TE T) (qs : List (List (Sym T N))) :
+    (firstCalls g fi [] qs).1.length = qs.length ∧
+    ∀ p, p ∈ qs.zip (firstCalls g fi [] qs).1 → (∀ X, X ∈ p.1 → symDeclared g X = true) →
+      p.2 = .ok (firstStr fi p.1) :=
+  ⟨firstCalls_length g fi qs [], (firstCalls_good g fi qs [] (fun _ _ h => by cases h)).2⟩
+
+/-- **The memoising closure serves the analyses as the pure function does.**  `ComputeFOLLOW` asks the closure for the
+rests `β` of bodies `A → α B β`, `IsLL1` and `BuildParsingTable` for whole bodies — all of them pieces of production
+bodies, asked of ONE closure in an order that depends on the iteration order.  On a grammar that passes `Verify()`, for
+every such history and every state of the table that earlier calls of this kind (or any other calls) have left, the
+answers are `firstStr fi` of the strings, one by one: which is why the Model of the three functions calls `firstStr fi`
+where the Go code calls the closure. -/
+theorem C10_first_memo_serves_analyses (g : Grammar T N) (hv : validB g = true) (fi : N → TE T)
+    (before qs : List (List (Sym T N)))
+    (hq : ∀ s, s ∈ qs → ∃ p, p ∈ g.prods ∧ ∃ pre suf, p.body = pre ++ s ++ suf) :
+    (firstCalls g fi (firstCalls g fi [] before).2 qs).1 = qs.map (fun s => .ok (firstStr fi s)) := by
+  apply firstCalls_declared g fi qs _ (firstCalls_good g fi before [] (fun _ _ h => by cases h)).1
+  intro s hs
+  obtain ⟨p, hp, pre, suf, hb⟩ := hq s hs
+  exact infix_declared hv hp hb
+
 /-- **`IsEmpty` and `GetProduction` read the cells**: on the table `BuildParsingTable` builds for a duplicate-free
 production list, `IsEmpty(A,a)` says whether `cell g fi fo A a` is empty and `GetProduction(A,a)` returns its
 production exactly when it holds one. -/
@@ -237,6 +263,18 @@ def C10bad2 : Grammar Nat Nat :=
   { terms := [0], nonterms := [0, 1], start := 0, prods := [⟨0, [.term 0, .nonterm 1, .term 9]⟩, ⟨1, []⟩] }
 example : (∃ fi, computeFirstP C10bad2 IterOrder.canon = .ok fi) ∧
     analyseP C10bad2 IterOrder.canon IterOrder.canon = .panic := ⟨⟨_, rfl⟩, rfl⟩
+
+/-- a history on one closure: FIRST(`A z`) (`z` undeclared) panics, asked again it answers the partial value, and the
+strings of declared symbols asked before, between and after get their FIRST sets; `[A b]` is a piece of no body but
+`[A, b]`'s symbols are declared, `[a A b]` is the body of `S` -/
+example : ∃ an, analyse C10ex IterOrder.canon IterOrder.canon = .ok an ∧
+    (firstCalls C10ex an.first []
+      [[.nonterm 1, .term 1], [.nonterm 1, .term 9], [.term 0, .nonterm 1, .term 1], [.nonterm 1, .term 9],
+       [.nonterm 1, .term 1], []]).1
+      = [.ok ⟨[0, 1], false⟩, .panic, .ok ⟨[0], false⟩, .ok ⟨[0], false⟩, .ok ⟨[0, 1], false⟩, .ok ⟨[], true⟩] ∧
+    validB C10ex = true ∧
+    (∃ p, p ∈ C10ex.prods ∧ ∃ pre suf, p.body = pre ++ [Sym.nonterm 1, .term 1] ++ suf) :=
+  ⟨_, rfl, by decide, by decide, ⟨⟨0, [.term 0, .nonterm 1, .term 1]⟩, by decide, [.term 0], [], rfl⟩⟩
 
 /-- the memo table: FIRST(`A z`) with `z` undeclared panics behind the nullable `A` and leaves `{a}` without ε in the
 table, which the second call returns; with declared symbols the table is transparent -/
